@@ -90,7 +90,7 @@ func (s *Service) RegionHeartbeat(_ context.Context, req *pb.RegionHeartbeatRequ
 	err := s.cluster.UpsertRegionHeartbeat(meta)
 	if err != nil {
 		switch {
-		case errors.Is(err, core.ErrInvalidRegionID):
+		case errors.Is(err, core.ErrInvalidRegionID), errors.Is(err, core.ErrInvalidRegionRange):
 			return nil, status.Error(codes.InvalidArgument, err.Error())
 		case errors.Is(err, core.ErrRegionHeartbeatStale), errors.Is(err, core.ErrRegionRangeOverlap):
 			return nil, status.Error(codes.FailedPrecondition, err.Error())
